@@ -1758,7 +1758,7 @@ def run(ctx):
 
     # -- task descriptions -----------------------------------------------------
     rng = ctx.rng('td')
-    for _ in range(ctx.n(12000, 800000)):
+    for _ in range(ctx.n(10000, 480000)):
         case = gen_td(rng)
         res.evaluations += 1
         if td_nontrivial(case):
@@ -1768,7 +1768,7 @@ def run(ctx):
 
     # -- pilot descriptions ------------------------------------------------------
     rng = ctx.rng('pd')
-    for _ in range(ctx.n(1600, 60000)):
+    for _ in range(ctx.n(1200, 40000)):
         case = gen_pd(rng)
         res.evaluations += 1
         res.digests.add(digest(case))
@@ -1778,7 +1778,7 @@ def run(ctx):
     rng   = ctx.rng('func')
     batch = list()
     n_ch  = 40 if ctx.quick else 400
-    for _ in range(ctx.n(6000, 400000)):
+    for _ in range(ctx.n(5000, 240000)):
         case = gen_func(rng)
         res.evaluations += 1
         if func_nontrivial(case):
@@ -1790,7 +1790,7 @@ def run(ctx):
 
     # -- slots ---------------------------------------------------------------------
     rng = ctx.rng('slots')
-    for _ in range(ctx.n(12000, 500000)):
+    for _ in range(ctx.n(10000, 320000)):
         case = gen_slots(rng)
         res.evaluations += 1
         if slots_nontrivial(case):
